@@ -37,6 +37,7 @@ import quimb.tensor as qtn
 from quimb.tensor import belief_propagation as bpm
 from quimb.tensor.belief_propagation import bp_common, d1bp, d2bp, hd1bp, hv1bp, l1bp, l2bp, regions
 
+from qv import decide as D
 from qv import poly as P
 from qv import ref, stubs
 from qv.harness import obligation, Skip
@@ -78,13 +79,37 @@ def sdist(x, y):
     return 0.0
 
 
-def nsum(x):
-    """documented callable `normalize`: divide by the plain sum of the entries (no absolute
-    values: usable with signed / complex symbolic data)"""
-    tot = 0
-    for v in np.asarray(x).reshape(-1):
-        tot = tot + v
-    return x / tot
+def _is_one(p):
+    """p == 1 identically (modulo the defining relations w*q = 1 of earlier divisions)"""
+    if not isinstance(p, P.Poly):
+        return p == 1
+    d = p - 1
+    if not d.t:
+        return True
+    if not (d.symbols() & set(P.DEF_INV)):
+        return False
+    try:
+        (c,), _ = D.clear_denominators([d])
+    except D._TooBig:
+        return False
+    return not c.t
+
+
+
+def make_normalizer(use_abs):
+    """documented callable `normalize`: divide by the sum of the (absolute) entries.  A message whose norm is
+    identically 1 is returned as is (dividing by an expression equal to 1 is the identity; skipping it keeps
+    the symbolic messages small where a flavour normalises an already normalised message again)."""
+    def normalize(x):
+        tot = 0
+        for v in np.asarray(x).reshape(-1):
+            tot = tot + (abs(v) if use_abs else v)
+        return x if _is_one(tot) else x / tot
+    return normalize
+
+
+nsum = make_normalizer(False)     # no absolute values: usable with signed / complex symbolic data
+nl1 = make_normalizer(True)
 
 
 def ntrace(x):
@@ -191,6 +216,7 @@ class FG:
 # ---------------------------------------------------------------------- 1-norm geometries
 
 GEOMS1 = {
+    "pair": [("A", "a"), ("B", "a")],
     "path3": [("A", "a"), ("B", "ab"), ("C", "b")],
     "star4": [("X", "abc"), ("A", "a"), ("B", "b"), ("C", "c")],
     "path4": [("A", "a"), ("B", "ab"), ("C", "bc"), ("D", "c")],
@@ -230,7 +256,7 @@ def iters_for(tn, hyper=False):
     return tn.num_tensors + (len(tn.ind_map) if hyper else 0) + 1
 
 
-NORMS = {"L1": "L1", "L2": None, "Linf": "Linf", "sum": nsum}
+NORMS = {"L1": "L1", "L2": None, "Linf": "Linf", "sum": nsum, "L1x": nl1}
 
 
 def run_opts(mk, tn, hyper=False, extra=0):
@@ -472,21 +498,37 @@ def marginal_goals(mk, tn, messages, fg, tag):
         mk.eq(f"{tag}: tensor marginal of {tags[tid]} * Z == exact unnormalised marginal over its labels", p * z0, fg.marg(t.inds))
 
 
-def nsum_batched(bx):
-    """in-place callable `normalize` of HV1BP (stacked messages, last axis = message entries)"""
-    tot = bx[..., 0]
-    for k in range(1, bx.shape[-1]):
-        tot = tot + bx[..., k]
-    bx /= tot[..., None]
+def make_batched_normalizer(use_abs):
+    """in-place callable `normalize` of HV1BP (stacked messages, last axis = message entries): divide every
+    message by the sum of its (absolute) entries.  A message whose norm is identically 1 is left alone:
+    HV1BP re-normalises the (already normalised) inputs of its rank-2 labels in place on every round
+    (the flipped *view* returned by _compute_all_hyperind_messages_prod_batched); dividing by an
+    expression that equals 1 is the identity, skipping it keeps the symbolic messages from growing."""
+    def normalize(bx):
+        for idx in np.ndindex(*bx.shape[:-1]):
+            row = bx[idx]
+            tot = 0
+            for v in row:
+                tot = tot + (abs(v) if use_abs else v)
+            if not _is_one(tot):
+                bx[idx] = row / tot
+    return normalize
+
+
+nsum_batched = make_batched_normalizer(False)
+l1_batched = make_batched_normalizer(True)
 
 
 HYPER_GEOMS = ("path3", "star4", "hyper3", "hyperstar", "forest", "path4")
 
 _HD = []
 for g_ in HYPER_GEOMS:
-    for nz_ in ("L1", "sum", "L2"):
+    for nz_ in ("L1x", "sum", "L1", "L2"):
         for up_ in ("sequential", "parallel"):
-            quick = (g_ in ("hyper3", "path3") and nz_ in ("L1", "sum")) or (g_ in ("star4", "hyperstar") and nz_ == "L1" and up_ == "sequential")
+            if nz_ in ("L1", "L2") and g_ in ("hyperstar", "path4"):
+                continue      # built-in normalisers: every 2-tensor label message is normalised twice (nested inverses): small receivers only
+            quick = (g_ in ("hyper3", "path3") and nz_ in ("L1x", "sum")) or (g_ in ("star4", "hyperstar") and nz_ == "L1x" and up_ == "sequential") \
+                or (g_ == "path3" and nz_ == "L1" and up_ == "sequential")
             _HD.append({"geom": g_, "norm": nz_, "update": up_, "_tiers": _Q if quick else _T})
 
 
@@ -499,7 +541,7 @@ def hd1bp_exact(mk, geom, norm, update):
                hd1bp.compute_all_hyperind_messages_prod, hd1bp.compute_all_tensor_messages_tree,
                bp_common.initialize_hyper_messages, bp_common.contract_hyper_messages, bp_common.combine_local_contractions,
                bp_common.compute_index_marginal, bp_common.compute_tensor_marginal, bp_common.compute_all_index_marginals_from_messages)
-    tn = build1(mk, geom, "pos", expo="sym" if norm == "L1" else None)
+    tn = build1(mk, geom, "pos", expo="sym" if norm == "L1x" else None)
     fg = FG(tn)
     mk.same("receiver is acyclic (incidence graph)", fg.is_tree(), True)
     Z = fg.z()
@@ -514,7 +556,7 @@ def hd1bp_exact(mk, geom, norm, update):
     hyper_messages_exact(mk, bp.messages, bp.tn, fg, "HD1BP")
     mk.eq("HD1BP.contract() == exact value", bp.contract(), Z)
     marginal_goals(mk, bp.tn, bp.messages, fg, "HD1BP")
-    if norm == "L1" and update == "sequential":
+    if norm == "L1x" and update == "sequential":
         # symbolic initial messages (dict) and a fill function
         init = {}
         tags = {tid: sorted(t.tags)[0] for tid, t in tn.tensor_map.items()}
@@ -556,8 +598,8 @@ def hd1bp_exact(mk, geom, norm, update):
         mk.eq("[numeric-only] contract_hd1bp with library defaults (smudge_factor=1e-12) == exact value", v, Z)
 
 
-@obligation(PROP, params=[{"geom": g, "kind": k, "_tiers": _Q if (g, k) in (("hyper3", "cplx"), ("path3", "real")) else _T}
-                          for g in ("hyper3", "path3", "hyperstar") for k in ("real", "cplx")], wall_s=500, timeout_s=600, max_paths=600)
+@obligation(PROP, params=[{"geom": g, "kind": k, "_tiers": _Q if (g, k) in (("hyper3", "cplx"), ("path3", "real"), ("pair", "real")) else _T}
+                          for g in ("pair", "hyper3", "path3", "hyperstar") for k in ("real", "cplx")], wall_s=500, timeout_s=600, max_paths=600)
 def hd1bp_signed(mk, geom, kind):
     """HD1BP on signed real / complex data (normalize = callable x / sum(x))"""
     mk.encodes(hd1bp.HD1BP, hd1bp.HD1BP.iterate, hd1bp.HD1BP.contract, bp_common.contract_hyper_messages,
@@ -569,19 +611,20 @@ def hd1bp_signed(mk, geom, kind):
     bp.run(**run_opts(mk, tn, hyper=True))
     hyper_messages_exact(mk, bp.messages, bp.tn, fg, f"HD1BP {kind}")
     marginal_goals(mk, bp.tn, bp.messages, fg, f"HD1BP {kind}")
-    if kind == "cplx" or geom == "path3":
+    if (kind == "cplx" and geom != "hyperstar") or geom == "pair":
         mk.eq(f"HD1BP.contract() on {kind} data == exact value", bp.contract(), Z)
     else:
-        mk.note("real signed hyper data: contract() forks on the sign of every local value (> 2**10 paths); value covered on complex / "
-                "positive data and numerically")
+        mk.note("contract() on real signed data forks on the sign of every local value (>= 2**9 paths) and on the complex 5-tensor "
+                "receiver takes 20 defined square roots (certificate too large): symbolic on the smaller receivers / positive data, "
+                "numeric cross-run here")
         if not mk.sym:
             mk.eq(f"[numeric-only] HD1BP.contract() on {kind} data == exact value", bp.contract(), Z)
 
 
 _HV = []
 for g_ in HYPER_GEOMS:
-    for nz_ in ("L1", "sum", "L2"):
-        quick = (g_ in ("hyper3", "path3") and nz_ in ("L1", "sum")) or (g_ in ("star4",) and nz_ == "L1")
+    for nz_ in ("L1x", "sum", "L1", "L2"):
+        quick = (g_ in ("hyper3", "path3") and nz_ in ("L1x", "sum")) or (g_ in ("star4",) and nz_ == "L1x")
         _HV.append({"geom": g_, "norm": nz_, "_tiers": _Q if quick else _T})
 
 
@@ -595,11 +638,11 @@ def hv1bp_exact(mk, geom, norm):
                hv1bp._compute_all_hyperind_messages_prod_batched, hv1bp._update_output_to_input_single_batched, hv1bp._gather_zb,
                hv1bp._contract_index_region_single, hv1bp._contract_tensor_region_single, hv1bp._contract_messages_pair_single,
                bp_common.initialize_hyper_messages)
-    tn = build1(mk, geom, "pos", expo="sym" if norm == "L1" else None)
+    tn = build1(mk, geom, "pos", expo="sym" if norm == "L1x" else None)
     fg = FG(tn)
     Z = fg.z()
-    nz = {"L1": "L1", "L2": "L2", "sum": nsum_batched}[norm]
-    ro = run_opts(mk, tn, hyper=True)
+    nz = {"L1": "L1", "L2": "L2", "sum": nsum_batched, "L1x": l1_batched}[norm]
+    ro = dict(max_iterations=tn.num_tensors + 1, tol=0.0)
     init = bp_common.initialize_hyper_messages(tn, smudge_factor=0.0)
     kw = dict(normalize=nz, distance=sdist, smudge_factor=0.0)
     mk.eq(f"contract_hv1bp({geom}, normalize={norm}) == exact value", hv1bp.contract_hv1bp(tn, messages=dict(init), **kw, **ro), Z)
@@ -607,13 +650,18 @@ def hv1bp_exact(mk, geom, norm):
     bp = hv1bp.HV1BP(tn, messages=dict(init), **kw)
     info = {}
     bp.run(info=info, **ro)
-    mk.same("last round changed nothing (max_mdiff == 0)", info["max_mdiff"], 0.0)
+    if norm in ("L1x", "sum"):
+        mk.same("last round changed nothing (max_mdiff == 0)", info["max_mdiff"], 0.0)
+    elif not mk.sym:
+        # built-in normalisers re-divide the rank-2 label inputs by their (unit) norm on every round: the messages
+        # keep changing in the last bits (numeric) / syntactically (symbolic) although they are converged
+        mk.same("[numeric-only] built-in normaliser: last round changed the messages by < 1e-12", bool(info["max_mdiff"] < 1e-12), True)
     msgs = bp.get_messages_dense()
     hyper_messages_exact(mk, msgs, bp.tn, fg, "HV1BP")
     mk.eq("HV1BP.contract() == exact value", bp.contract(), Z)
     mk.eq("HV1BP.contract_dense() == exact value", bp.contract_dense(), Z)
     marginal_goals(mk, bp.tn, msgs, fg, "HV1BP")
-    if norm == "L1":
+    if norm == "L1x":
         # symbolic initial messages
         sym = {}
         tags = {tid: sorted(t.tags)[0] for tid, t in tn.tensor_map.items()}
@@ -636,6 +684,7 @@ def hv1bp_exact(mk, geom, norm):
         mk.eq("damping=0.25: contract() at the fixed point == exact value", bp4.contract(), Z)
         # agreement with the dense hyper flavour (same schedule: parallel)
         bpd = hd1bp.HD1BP(tn, messages=dict(init), normalize="L1", distance=sdist, update="parallel", smudge_factor=0.0)
+        ro = run_opts(mk, tn, hyper=True)
         bpd.run(**ro)
         for key in msgs:
             mk.eq(f"HV1BP message {key if isinstance(key[0], str) else (tags[key[0]], key[1])} == HD1BP(update='parallel') message", msgs[key], bpd.messages[key])
@@ -646,3 +695,481 @@ def hv1bp_exact(mk, geom, norm):
         mk.eq("[numeric-only] contract_hv1bp with library defaults (smudge_factor=1e-12) == exact value", v, Z)
         v = hv1bp.contract_hv1bp(tn, messages="dense", tol=1e-13, max_iterations=80)
         mk.eq("[numeric-only] contract_hv1bp(messages='dense') == exact value", v, Z)
+
+
+# ---------------------------------------------------------------------- lazy 1-norm: L1BP
+
+# site tag -> list of (tensor tag, labels); the *site* graph is a tree, sites may have inner structure and
+# be joined by several bonds (multi-label messages)
+LAZY1 = {
+    "lpair": {"I0": [("A", "ap"), ("A2", "p")], "I1": [("B", "a")]},
+    "lpath3": {"I0": [("A", "ap"), ("A2", "p")], "I1": [("B", "ab")], "I2": [("C", "bq"), ("C2", "q")]},
+    "lmulti": {"I0": [("A", "ac")], "I1": [("B", "ap"), ("B2", "cpb")], "I2": [("C", "b")]},
+    "lstar4": {"I0": [("X", "abp"), ("X2", "pc")], "I1": [("A", "a")], "I2": [("B", "b")], "I3": [("C", "c")]},
+    "lforest": {"I0": [("A", "a")], "I1": [("B", "a")], "I2": [("C", "bp"), ("C2", "p")], "I3": [("D", "b")], "I4": [("E", "")]},
+}
+
+
+def build_lazy1(mk, geom, kind="pos"):
+    ts = []
+    for site, lst in LAZY1[geom].items():
+        for tag, inds in lst:
+            ts.append(qtn.Tensor(arr(mk, tag, (2,) * len(inds), kind), tuple(inds), tags=[tag, site]))
+    return qtn.TensorNetwork(ts), tuple(LAZY1[geom])
+
+
+def lazy_messages_exact(mk, bp, tn, fg, tag, two_norm=False):
+    site_tids = {s: set(tn._get_tids_from_tags(s)) for s in bp.site_tags}
+    for (i, j), tm in bp.messages.items():
+        bix = bp.edges[(i, j) if i < j else (j, i)]
+        sub = fg.reach(site_tids[i], blocked_tids=site_tids[j])
+        if not two_norm:
+            want = fg.sop(sub, bix)
+            got = tm.transpose(*bix).data
+        else:
+            terms = [fg.terms[t] for t in sorted(sub)]
+            cterms = [(conj(a), tuple(ix + "*" if ix in bix else ix for ix in inds)) for a, inds in terms]
+            # bra copy: bonds inside the sub-tree get their own labels, outer (physical) labels are shared
+            inner = {ix for _, inds in terms for ix in inds if len(fg.ind_map[ix]) >= 2 and ix not in bix}
+            cterms = [(a, tuple(ix + "'" if ix in inner else ix for ix in inds)) for a, inds in cterms]
+            cix = tuple(ix + "*" for ix in bix)
+            want = ref.sum_of_products(terms + cterms, cix + bix)
+            got = tm.transpose(*[ix for ix in tm.inds if ix not in bix], *bix).data
+            mk.same(f"{tag}: message {i}->{j} carries (bra.., ket..) labels", tuple(tm.inds[len(bix):]) == tuple(bix) or set(tm.inds[len(bix):]) == set(bix), True)
+        prop_goal(mk, f"{tag}: message {i}->{j} over {bix} proportional to the exact cavity contraction", got, want)
+
+
+_L1 = []
+for g_ in ("lpath3", "lmulti", "lstar4", "lforest"):
+    for nz_ in ("L1", "sum", "L2"):
+        for up_ in ("sequential", "parallel"):
+            quick = (g_ in ("lpath3", "lmulti") and nz_ == "L1") or (g_ == "lstar4" and nz_ == "sum" and up_ == "sequential")
+            _L1.append({"geom": g_, "norm": nz_, "update": up_, "_tiers": _Q if quick else _T})
+
+
+@obligation(PROP, params=_L1, wall_s=400, timeout_s=500)
+def l1bp_exact(mk, geom, norm, update):
+    """L1BP / contract_l1bp: sites with inner structure, multi-bond messages, a disconnected scalar site"""
+    mk.encodes(l1bp.L1BP, l1bp.L1BP.iterate, l1bp.L1BP.contract, l1bp.contract_l1bp, bp_common.create_lazy_community_edge_map,
+               bp_common.combine_local_contractions, bp_common.BeliefPropagationCommon.run)
+    tn, sites = build_lazy1(mk, geom, "pos")
+    fg = FG(tn)
+    Z = fg.z()
+    kw = dict(site_tags=sites, normalize=NORMS[norm], distance=sdist, update=update)
+    ro = dict(max_iterations=len(sites) + 1, tol=0.0)
+    mk.eq(f"contract_l1bp({geom}, normalize={norm}, update={update}) == exact value", l1bp.contract_l1bp(tn, **kw, **ro), Z)
+    mk.eq("contract_l1bp(strip_exponent=True)", value(l1bp.contract_l1bp(tn, strip_exponent=True, **kw, **ro)), Z)
+    for lc in (True, False):
+        bp = l1bp.L1BP(tn, local_convergence=lc, **kw)
+        info = {}
+        bp.run(info=info, **ro)
+        mk.same(f"local_convergence={lc}: last round changed nothing (max_mdiff == 0)", info["max_mdiff"], 0.0)
+        lazy_messages_exact(mk, bp, bp.tn, fg, f"L1BP lc={lc}")
+        mk.eq(f"L1BP.contract() local_convergence={lc} == exact value", bp.contract(), Z)
+    if norm == "L1":
+        cnt = [0]
+
+        def fill(shape):
+            cnt[0] += 1
+            return mk.array(f"f{cnt[0]}", shape, "pos")
+
+        bp2 = l1bp.L1BP(tn, message_init_function=fill, **kw)
+        bp2.run(**ro)
+        for key, tm in bp.messages.items():
+            mk.eq(f"message_init_function=symbolic fill: converged message {key} independent of it", bp2.messages[key].data, tm.data)
+        # damping at the fixed point: L1BP builds its messages itself, so converge first, then switch damping on
+        bp.damping = 0.25
+        before = {k: tm.data for k, tm in bp.messages.items()}
+        bp.run(max_iterations=2, tol=0.0)
+        for key, tm in bp.messages.items():
+            mk.eq(f"damping=0.25: fixed point message {key} unchanged", tm.data, before[key])
+        mk.eq("damping=0.25: contract() at the fixed point == exact value", bp.contract(), Z)
+    if not mk.sym:
+        info = {}
+        v = l1bp.contract_l1bp(tn, site_tags=sites, update=update, tol=1e-13, max_iterations=60, info=info)
+        mk.same("[numeric-only] default distance: converged flag set on a tree", bool(info["converged"]), True)
+        mk.eq("[numeric-only] contract_l1bp with default normalize / distance == exact value", v, Z)
+
+
+@obligation(PROP, params=[{"geom": g, "kind": k, "_tiers": _Q if (g, k) in (("lmulti", "cplx"), ("lpair", "real")) else _T}
+                          for g in ("lpair", "lpath3", "lmulti") for k in ("real", "cplx")], wall_s=400, timeout_s=500, max_paths=600)
+def l1bp_signed(mk, geom, kind):
+    mk.encodes(l1bp.L1BP, l1bp.L1BP.iterate, l1bp.L1BP.contract)
+    tn, sites = build_lazy1(mk, geom, kind)
+    fg = FG(tn)
+    Z = fg.z()
+    bp = l1bp.L1BP(tn, site_tags=sites, normalize=nsum, distance=sdist)
+    bp.run(max_iterations=len(sites) + 1, tol=0.0)
+    lazy_messages_exact(mk, bp, bp.tn, fg, f"L1BP {kind}")
+    if kind == "cplx" or geom == "lpair":
+        mk.eq(f"L1BP.contract() on {kind} data == exact value", bp.contract(), Z)
+    else:
+        mk.note("real signed data on 3 sites: the sign-fork feasibility queries (non-linear, nested inverses) time out; contract() on real "
+                "data is symbolic on the 2-site receiver, numeric here")
+        if not mk.sym:
+            mk.eq(f"[numeric-only] L1BP.contract() on {kind} data == exact value", bp.contract(), Z)
+
+
+# ---------------------------------------------------------------------- (e) region counting + combine_local_contractions
+
+REGIONS = {
+    # tensor positions (in GEOMS1 order) per generating region
+    "path3": [[(0, 1), (1, 2)], [(0, 1, 2)], [(0, 1), (1, 2), (1,)]],
+    "star4": [[(0, 1), (0, 2), (0, 3)], [(0, 1, 2), (0, 3)], [(0, 1, 2), (0, 2, 3)]],
+    "path4": [[(0, 1), (1, 2), (2, 3)], [(0, 1, 2), (2, 3)], [(0, 1, 2), (1, 2, 3)]],
+    "forest": [[(0, 1), (2, 3), (3, 4)], [(0, 1), (2, 3, 4)]],
+}
+
+
+@obligation(PROP, params=[{"geom": g, "_tiers": _Q if g in ("path3", "star4") else _T} for g in REGIONS], wall_s=300, timeout_s=400)
+def region_counting(mk, geom):
+    """counting numbers of a tree region graph (gen_region_counts / RegionGraph.get_count) with the region
+    contractions D1BP.get_cluster(region) at converged messages, combined by combine_local_contractions,
+    reproduce the exact value; the counts are balanced (every tensor counted once in total)"""
+    mk.encodes(regions.gen_region_counts, regions.RegionGraph, regions.RegionGraph.get_count, regions.RegionGraph.add_region,
+               regions.RegionGraph.autocomplete, regions.RegionGraph.isbalanced, d1bp.D1BP.get_cluster, bp_common.combine_local_contractions)
+    tn = build1(mk, geom, "pos", expo="sym")
+    fg = FG(tn)
+    Z = fg.z()
+    bp = d1bp.D1BP(tn, normalize="L1", distance=sdist)
+    bp.run(**run_opts(mk, tn))
+    tids = list(bp.tn.tensor_map)
+    for gen in REGIONS[geom]:
+        gen_t = [tuple(tids[k] for k in r) for r in gen] + [(t,) for t in tids]
+        rc = list(regions.gen_region_counts(gen_t))
+        counts = {}
+        for r, c in rc:
+            for t in r:
+                counts[t] = counts.get(t, 0) + c
+        mk.same(f"regions {gen}: every tensor has total count 1", counts, {t: 1 for t in tids})
+        rg = regions.RegionGraph(gen_t)
+        mk.same(f"regions {gen}: RegionGraph counts == gen_region_counts", {r: rg.get_count(r) for r in rg.regions}, dict(rc))
+        mk.same(f"regions {gen}: RegionGraph balanced", rg.isbalanced(), True)
+        zvals = []
+        for r, c in rc:
+            zr = bp.get_cluster(sorted(r)).contract(all, output_inds=())
+            zvals.append((zr, c))
+        got = bp_common.combine_local_contractions(zvals, backend="numpy", mantissa=bp.sign, exponent=bp.exponent)
+        mk.eq(f"regions {gen}: prod_r Z_r**c_r (combine_local_contractions) == exact value", got, Z)
+        got = bp_common.combine_local_contractions(zvals, backend="numpy", mantissa=bp.sign, exponent=bp.exponent, strip_exponent=True)
+        mk.eq(f"regions {gen}: strip_exponent form", value(got), Z)
+
+
+@obligation(PROP, params=[{"geom": g, "_tiers": _Q if g == "hyper3" else _T} for g in ("hyper3", "path3", "hyperstar")], wall_s=300, timeout_s=400)
+def region_counting_hyper(mk, geom):
+    """factor-graph regions {tensor + its labels} and their intersections {label} (count 1 - #tensors on it) with
+    HD1BP.get_cluster at converged messages"""
+    mk.encodes(regions.gen_region_counts, hd1bp.HD1BP.get_cluster, bp_common.combine_local_contractions)
+    tn = build1(mk, geom, "pos")
+    fg = FG(tn)
+    Z = fg.z()
+    bp = hd1bp.HD1BP(tn, normalize=nl1, distance=sdist, smudge_factor=0.0)
+    bp.run(**run_opts(mk, tn, hyper=True))
+    gen = [(tid, *t.inds) for tid, t in bp.tn.tensor_map.items()]
+    rc = list(regions.gen_region_counts(gen))
+    want = {frozenset(r): 1 for r in gen}
+    want.update({frozenset([ix]): 1 - len(ts) for ix, ts in bp.tn.ind_map.items() if len(ts) != 1})
+    mk.same("counting numbers: tensor regions 1, label regions 1 - (number of tensors on the label)", dict(rc), want)
+    zvals = [(bp.get_cluster(r, virtual=False, autocomplete=False).contract(all, output_inds=()), c) for r, c in rc]
+    mk.eq("prod_r Z_r**c_r over factor-graph regions == exact value", bp_common.combine_local_contractions(zvals, backend="numpy"), Z)
+
+
+def _prod_ref(vals, mant0, expo0):
+    tot = mant0 * 10 ** expo0
+    for x, p in vals:
+        tot = tot * (x ** p if p > 0 else 1 / (x ** (-p)))
+    return tot
+
+
+@obligation(PROP, params=[{"kind": k, "powers": p} for k in ("pos", "real", "cplx") for p in ((1, -1), (1, 1, -1), (2, -1, -2), (1, -1, 1, -1))],
+            wall_s=300, timeout_s=400, max_paths=300)
+def combine_values(mk, kind, powers):
+    """combine_local_contractions on bare symbolic values: == mantissa0 * 10**exponent0 * prod x_i**p_i for positive,
+    signed real (sign forks) and complex (phase = x / |x|) values, plain and stripped; zero short-cut"""
+    mk.encodes(bp_common.combine_local_contractions)
+    vals = [(mk.scalar(f"x{i}", kind), p) for i, p in enumerate(powers)]
+    if not mk.sym and kind != "pos":
+        vals = [(x + 0.0031 * (i + 1), p) for i, (x, p) in enumerate(vals)]
+    m0 = mk.scalar("m0", kind)
+    e0 = mk.scalar("e0", "real")
+    want = _prod_ref(vals, m0, e0)
+    f = bp_common.combine_local_contractions
+    mk.eq("combine_local_contractions(values, mantissa, exponent) == mantissa * 10**exponent * prod x**p", f(vals, mantissa=m0, exponent=e0) * 1, want)
+    mk.eq("strip_exponent=True: mantissa * 10**exponent", value(f(vals, mantissa=m0, exponent=e0, strip_exponent=True)), want)
+    mk.eq("defaults (mantissa 1, exponent 0)", f(vals) * 1, _prod_ref(vals, 1, 0))
+    mk.eq("check_zero=False", f(vals, check_zero=False) * 1, _prod_ref(vals, 1, 0))
+    if kind == "pos":
+        r = f(vals, power=2.0)
+        mk.eq("power=2.0: == (prod x**p)**2", r * 1, _prod_ref(vals, 1, 0) ** 2)
+        r = f(vals, power=0.5)
+        mk.eq("power=0.5: result**2 == prod x**p", r * r, _prod_ref(vals, 1, 0))
+    if not mk.sym:
+        # (the phase x / |x| is formed before the zero test: 0/0 -> nan + RuntimeWarning numerically, not representable symbolically)
+        with np.errstate(all="ignore"):
+            mk.same("[numeric-only] a zero value short-cuts to 0.0", f([(vals[0][0], 1), (0.0, 1)]), 0.0)
+            mk.same("[numeric-only] a zero value short-cuts to (0.0, 0.0) when stripped", f([(vals[0][0], 1), (0.0, 1)], strip_exponent=True), (0.0, 0.0))
+
+
+# ---------------------------------------------------------------------- 2-norm flavours: D2BP, L2BP
+
+GEOMS2 = {
+    "pair": (2, [(0, 1)]),
+    "path3": (3, [(0, 1), (1, 2)]),
+    "star4": (4, [(0, 1), (0, 2), (0, 3)]),
+    "path4": (4, [(0, 1), (1, 2), (2, 3)]),
+    "forest": (4, [(0, 1), (2, 3)]),
+}
+
+
+def build2(mk, geom, kind="pos", D=2, d=2, phys=None):
+    """vector network: site i carries the physical label k{i} (dimension d) and tag I{i}"""
+    n, edges = GEOMS2[geom]
+    inds = {i: [] for i in range(n)}
+    for a, b in edges:
+        inds[a].append(f"b{a}{b}")
+        inds[b].append(f"b{a}{b}")
+    ts = []
+    for i in range(n):
+        di = (phys or {}).get(i, d)
+        shape = (D,) * len(inds[i]) + (di,)
+        ts.append(qtn.Tensor(arr(mk, f"T{i}", shape, kind), tuple(inds[i]) + (f"k{i}",), tags=[f"I{i}"]))
+    tn = qtn.TensorNetworkGenVector.from_TN(qtn.TensorNetwork(ts), site_tag_id="I{}", site_ind_id="k{}", sites=tuple(range(n)))
+    return tn, n
+
+
+class FG2(FG):
+    """norm network <psi|psi> of a vector network, written out: ket terms + conjugated bra terms whose bond labels
+    carry a '*' (physical labels shared)"""
+
+    def __init__(self, tn):
+        FG.__init__(self, tn)
+        self.bonds = {ix for ix, ts in self.ind_map.items() if len(ts) >= 2}
+
+    def bra(self, tid, keep=()):
+        a, inds = self.terms[tid]
+        return conj(a), tuple(ix + "*" if (ix in self.bonds or ix in keep) else ix for ix in inds)
+
+    def norm_terms(self, tids, keep=()):
+        return [self.terms[t] for t in sorted(tids)] + [self.bra(t, keep) for t in sorted(tids)]
+
+    def norm2(self):
+        return ref.sum_of_products(self.norm_terms(self.terms), ())[()]
+
+    def msg2(self, ix, tid):
+        """exact 2-norm cavity message into `tid` along bond `ix`: matrix [bra, ket]"""
+        start = [t for t in self.ind_map[ix] if t != tid]
+        sub = self.reach(start, blocked_tids=(tid,))
+        return ref.sum_of_products(self.norm_terms(sub), (ix + "*", ix))
+
+    def rdm(self, kix):
+        """rho[k.., b..] = sum_rest psi[k.., rest] conj(psi[b.., rest]) over the physical labels kix, as a matrix"""
+        kix = tuple(kix)
+        r = ref.sum_of_products(self.norm_terms(self.terms, keep=kix), kix + tuple(k + "*" for k in kix))
+        dk = int(np.prod(r.shape[:len(kix)])) if kix else 1
+        return r.reshape(dk, dk)
+
+
+def d2_messages_exact(mk, bp, fg, tag):
+    for (ix, tid), m in bp.messages.items():
+        prop_goal(mk, f"{tag}: message {ix}->{tag_of(bp, tid)} [bra, ket] proportional to the exact cavity contraction of the norm network",
+                  m, fg.msg2(ix, tid))
+
+
+def d2_local_product(mk, label, bp, fg, N2):
+    num = 1
+    for tid in bp.tn.tensor_map:
+        num = num * bp.local_tensor_contract(tid)
+    den = 1
+    for ix, tids in bp.tn.ind_map.items():
+        if len(tids) == 2:
+            a, b = tids
+            ml, mr = bp.messages[ix, b], bp.messages[ix, a]
+            tot = 0
+            for x, y in zip(np.asarray(ml).reshape(-1), np.asarray(mr).reshape(-1)):
+                tot = tot + x * y
+            den = den * tot
+    mk.eq(label, num, N2 * den)
+
+
+NORMS2 = {"L1": "L1", "L2": None, "trace": ntrace}
+
+_D2 = []
+for g_ in ("path3", "star4", "path4", "forest"):
+    for nz_ in ("L1", "trace", "L2"):
+        for up_ in ("sequential", "parallel"):
+            quick = (g_ == "path3" and nz_ in ("L1", "trace")) or (g_ == "star4" and nz_ == "L1" and up_ == "sequential") \
+                or (g_ == "path3" and nz_ == "L2" and up_ == "sequential")
+            _D2.append({"geom": g_, "norm": nz_, "update": up_, "_tiers": _Q if quick else _T})
+
+
+@obligation(PROP, params=_D2, wall_s=500, timeout_s=600)
+def d2bp_exact(mk, geom, norm, update):
+    """D2BP / contract_d2bp / converge_d2bp on a tree-shaped state (positive symbolic entries): <psi|psi>, matrix
+    messages, BP reduced density matrices and physical-index marginals, local convergence, initial messages, damping"""
+    mk.encodes(d2bp.D2BP, d2bp.D2BP._init_tid, d2bp.D2BP.iterate, d2bp.D2BP.contract, d2bp.D2BP.local_tensor_contract,
+               d2bp.D2BP.partial_trace, d2bp.D2BP.get_cluster_norm, d2bp.D2BP.compute_marginal, d2bp.contract_d2bp, d2bp.converge_d2bp,
+               bp_common.combine_local_contractions, bp_common.BeliefPropagationCommon.run)
+    tn, n = build2(mk, geom, "pos")
+    fg = FG2(tn)
+    N2 = fg.norm2()
+    kw = dict(normalize=NORMS2[norm], distance=sdist, update=update)
+    ro = dict(max_iterations=n + 1, tol=0.0)
+    mk.eq(f"contract_d2bp({geom}, normalize={norm}, update={update}) == <psi|psi>", d2bp.contract_d2bp(tn, **kw, **ro), N2)
+    mk.eq("contract_d2bp(strip_exponent=True)", value(d2bp.contract_d2bp(tn, strip_exponent=True, **kw, **ro)), N2)
+    for lc in (True, False):
+        info = {}
+        bp = d2bp.converge_d2bp(tn, local_convergence=lc, info=info, **kw, **ro)
+        mk.same(f"local_convergence={lc}: last round changed nothing (max_mdiff == 0)", info["max_mdiff"], 0.0)
+        d2_messages_exact(mk, bp, fg, f"lc={lc}")
+    mk.eq("D2BP.contract() == <psi|psi>", bp.contract(), N2)
+    d2_local_product(mk, "prod local_tensor_contract == <psi|psi> * prod <m_ab, m_ba>", bp, fg, N2)
+    # reduced density matrices / marginals from the messages
+    wheres = [(0,), (n - 1,), (0, 1)] + ([(1, 0)] if geom == "path3" else [])
+    for where in wheres:
+        kix = tuple(f"k{i}" for i in where)
+        rho_w = fg.rdm(kix)
+        rho = bp.partial_trace(where)
+        mk.eq(f"D2BP.partial_trace({where}) (normalized) * <psi|psi> == exact reduced density matrix", rho * N2, rho_w)
+        rho_u = bp.partial_trace(where, normalized=False)
+        prop_goal(mk, f"D2BP.partial_trace({where}, normalized=False) proportional to the exact reduced density matrix", rho_u, rho_w)
+    for i in range(n):
+        p = bp.compute_marginal(f"k{i}")
+        diag = np.array([fg.rdm((f"k{i}",))[x, x] for x in range(2)], dtype=object if mk.sym else None)
+        mk.eq(f"D2BP.compute_marginal(k{i}) * <psi|psi> == diagonal of the exact reduced density matrix", p * N2, diag)
+    if norm == "L1" and update == "sequential":
+        # symbolic initial messages
+        init = {}
+        for ix, tids in tn.ind_map.items():
+            if len(tids) == 2:
+                for tid in tids:
+                    init[ix, tid] = mk.array(f"m0_{ix}_{tid}", (2, 2), "pos")
+        bp2 = d2bp.converge_d2bp(tn, messages=dict(init), **kw, **ro)
+        for key, m in bp.messages.items():
+            mk.eq(f"symbolic initial messages: converged message {key[0]}->{tag_of(bp, key[1])} independent of them", bp2.messages[key], m)
+        bp3 = d2bp.converge_d2bp(tn, messages=dict(bp.messages), damping=0.25, normalize="L1", distance=sdist, update=update, max_iterations=2, tol=0.0)
+        for key, m in bp.messages.items():
+            mk.eq(f"damping=0.25: fixed point message {key[0]}->{tag_of(bp, key[1])} unchanged", bp3.messages[key], m)
+    if not mk.sym:
+        info = {}
+        v = d2bp.contract_d2bp(tn, update=update, tol=1e-13, max_iterations=60, info=info)
+        mk.same("[numeric-only] default distance: converged flag set on a tree", bool(info["converged"]), True)
+        mk.eq("[numeric-only] contract_d2bp with default normalize / distance == <psi|psi>", v, N2)
+
+
+@obligation(PROP, params=[{"geom": g, "kind": k, "_tiers": _Q if (g, k) in (("path3", "cplx"), ("pair", "real")) else _T}
+                          for g in ("pair", "path3", "star4") for k in ("real", "cplx")], wall_s=500, timeout_s=600, max_paths=300)
+def d2bp_signed(mk, geom, kind):
+    """D2BP on signed real / complex states (normalize = callable m / trace(m)): messages, local values, reduced density
+    matrices.  contract() takes abs() of every (real-valued, mathematically non-negative) local value: for real data the
+    sign-fork feasibility queries (non-linear, nested inverses) time out, with complex symbols the sign of a real-valued
+    polynomial in (z, conj z) is outside the branch engine -> contract() on signed / complex states is numeric-only;
+    the local-product goal states the same identity without abs()"""
+    mk.encodes(d2bp.D2BP, d2bp.D2BP.iterate, d2bp.D2BP.contract, d2bp.D2BP.partial_trace, d2bp.D2BP.local_tensor_contract)
+    tn, n = build2(mk, geom, kind)
+    fg = FG2(tn)
+    N2 = fg.norm2()
+    bp = d2bp.converge_d2bp(tn, normalize=ntrace, distance=sdist, max_iterations=n + 1, tol=0.0)
+    d2_messages_exact(mk, bp, fg, kind)
+    d2_local_product(mk, f"{kind}: prod local_tensor_contract == <psi|psi> * prod <m_ab, m_ba>", bp, fg, N2)
+    for where in [(0,), (1, 0)]:
+        kix = tuple(f"k{i}" for i in where)
+        mk.eq(f"{kind}: D2BP.partial_trace({where}) (normalized) * <psi|psi> == exact reduced density matrix", bp.partial_trace(where) * N2, fg.rdm(kix))
+    if not mk.sym:
+        mk.eq(f"[numeric-only] D2BP.contract() on {kind} data == <psi|psi>", bp.contract(), N2)
+        v = d2bp.contract_d2bp(tn, tol=1e-13, max_iterations=60)
+        mk.eq(f"[numeric-only] contract_d2bp on {kind} data, library defaults == <psi|psi>", v, N2)
+
+
+LAZY2 = {
+    # site tag -> list of (tensor name, bond labels, has physical label)
+    "lpair": {"I0": [("T0", "ap", True), ("T0b", "p", False)], "I1": [("T1", "a", True)]},
+    "lpath3": {"I0": [("T0", "ap", True), ("T0b", "p", False)], "I1": [("T1", "ab", True)], "I2": [("T2", "b", True)]},
+    "lmulti": {"I0": [("T0", "ac", True)], "I1": [("T1", "ap", True), ("T1b", "cpb", False)], "I2": [("T2", "b", True)]},
+    "lstar4": {"I0": [("T0", "abc", True)], "I1": [("T1", "a", True)], "I2": [("T2", "bp", True), ("T2b", "p", False)], "I3": [("T3", "c", True)]},
+}
+
+
+def build_lazy2(mk, geom, kind="pos"):
+    ts = []
+    sites = list(LAZY2[geom])
+    for s, lst in LAZY2[geom].items():
+        i = int(s[1:])
+        for name, bonds, phys in lst:
+            inds = tuple(bonds) + ((f"k{i}",) if phys else ())
+            ts.append(qtn.Tensor(arr(mk, name, (2,) * len(inds), kind), inds, tags=[name, s]))
+    tn = qtn.TensorNetworkGenVector.from_TN(qtn.TensorNetwork(ts), site_tag_id="I{}", site_ind_id="k{}", sites=tuple(range(len(sites))))
+    return tn, tuple(sites)
+
+
+def l2_messages_exact(mk, bp, tn, fg, tag):
+    site_tids = {s: set(tn._get_tids_from_tags(s)) for s in bp.site_tags}
+    for (i, j), tm in bp.messages.items():
+        bix = bp.edges[(i, j) if i < j else (j, i)]
+        sub = fg.reach(site_tids[i], blocked_tids=site_tids[j])
+        want = ref.sum_of_products(fg.norm_terms(sub), tuple(ix + "*" for ix in bix) + tuple(bix))
+        mk.same(f"{tag}: message {i}->{j} labels are (bra.., ket..)", tuple(tm.inds[len(bix):]), tuple(bix))
+        prop_goal(mk, f"{tag}: message {i}->{j} over {bix} [bra.., ket..] proportional to the exact cavity contraction of the norm network",
+                  tm.data, want)
+
+
+_L2 = []
+for g_ in ("lpath3", "lmulti", "lstar4"):
+    for nz_ in ("L1", "trace", "L2"):
+        for up_ in ("sequential", "parallel"):
+            quick = (g_ == "lpath3" and nz_ == "L1" and up_ == "sequential") or (g_ == "lmulti" and nz_ == "trace" and up_ == "parallel")
+            _L2.append({"geom": g_, "norm": nz_, "update": up_, "_tiers": _Q if quick else _T})
+
+
+@obligation(PROP, params=_L2, wall_s=500, timeout_s=600)
+def l2bp_exact(mk, geom, norm, update):
+    """L2BP / contract_l2bp on a tree of sites with inner structure and multi-bond messages: <psi|psi>, messages, site
+    reduced density matrices"""
+    mk.encodes(l2bp.L2BP, l2bp.L2BP.iterate, l2bp.L2BP.contract, l2bp.L2BP.partial_trace, l2bp.contract_l2bp, l2bp.L2BP.symmetrize,
+               bp_common.create_lazy_community_edge_map, bp_common.combine_local_contractions)
+    tn, sites = build_lazy2(mk, geom, "pos")
+    fg = FG2(tn)
+    N2 = fg.norm2()
+    kw = dict(site_tags=sites, normalize=NORMS2[norm], distance=sdist, update=update)
+    ro = dict(max_iterations=len(sites) + 1, tol=0.0)
+    mk.eq(f"contract_l2bp({geom}, normalize={norm}, update={update}) == <psi|psi>", l2bp.contract_l2bp(tn, **kw, **ro), N2)
+    for lc in (True, False):
+        bp = l2bp.L2BP(tn, local_convergence=lc, **kw)
+        info = {}
+        bp.run(info=info, **ro)
+        mk.same(f"local_convergence={lc}: last round changed nothing (max_mdiff == 0)", info["max_mdiff"], 0.0)
+        l2_messages_exact(mk, bp, bp.tn, fg, f"L2BP lc={lc}")
+    mk.eq("L2BP.contract(strip_exponent=True) == <psi|psi>", value(bp.contract(strip_exponent=True)), N2)
+    for i in range(len(sites)):
+        rho_w = fg.rdm((f"k{i}",))
+        mk.eq(f"L2BP.partial_trace({i}) (normalized) * <psi|psi> == exact reduced density matrix", bp.partial_trace(i) * N2, rho_w)
+        prop_goal(mk, f"L2BP.partial_trace({i}, normalized=False) proportional to the exact reduced density matrix",
+                  bp.partial_trace(i, normalized=False), rho_w)
+    if norm == "L1":
+        bp.damping = 0.25
+        before = {k: tm.data for k, tm in bp.messages.items()}
+        bp.run(max_iterations=2, tol=0.0)
+        for key, tm in bp.messages.items():
+            mk.eq(f"damping=0.25: fixed point message {key} unchanged", tm.data, before[key])
+    if not mk.sym:
+        info = {}
+        v = l2bp.contract_l2bp(tn, site_tags=sites, update=update, tol=1e-13, max_iterations=60, info=info)
+        mk.same("[numeric-only] default distance: converged flag set on a tree", bool(info["converged"]), True)
+        mk.eq("[numeric-only] contract_l2bp with default normalize / distance == <psi|psi>", v, N2)
+
+
+@obligation(PROP, params=[{"geom": g, "kind": k, "_tiers": _Q if (g, k) == ("lpath3", "cplx") else _T}
+                          for g in ("lpath3", "lmulti") for k in ("real", "cplx")], wall_s=500, timeout_s=600)
+def l2bp_signed(mk, geom, kind):
+    """L2BP on signed real / complex states (normalize = callable m / trace(m)); contract() numeric-only (see d2bp_signed)"""
+    mk.encodes(l2bp.L2BP, l2bp.L2BP.iterate, l2bp.L2BP.partial_trace, l2bp.L2BP.symmetrize)
+    tn, sites = build_lazy2(mk, geom, kind)
+    fg = FG2(tn)
+    N2 = fg.norm2()
+    bp = l2bp.L2BP(tn, site_tags=sites, normalize=ntrace, distance=sdist)
+    bp.run(max_iterations=len(sites) + 1, tol=0.0)
+    l2_messages_exact(mk, bp, bp.tn, fg, f"L2BP {kind}")
+    for i in (0, 1):
+        mk.eq(f"{kind}: L2BP.partial_trace({i}) (normalized) * <psi|psi> == exact reduced density matrix", bp.partial_trace(i) * N2, fg.rdm((f"k{i}",)))
+    if not mk.sym:
+        mk.eq(f"[numeric-only] L2BP.contract() on {kind} data == <psi|psi>", bp.contract(), N2)
+        mk.eq(f"[numeric-only] contract_l2bp on {kind} data, library defaults", l2bp.contract_l2bp(tn, site_tags=sites, tol=1e-13, max_iterations=60), N2)
